@@ -128,6 +128,8 @@ def guardTable : List (SiteKey × Guard) := [
     .static "overload dispatch (same name, different signature); no cycle"),
   (("sbe_schema_validator.hpp", "is_sbe_symbolic_name", "index", "if(name.empty() || std::isdigit(static_cast<unsigned char>(name[0])))"),
     .local_ "size()/empty() tested in the same condition"),
+  (("sbe_schema_validator.hpp", "validate_data_header_layout", "ptrderef", "*utils::find_composite_element(c, \"length\"));"),
+    .local_ "validate_level_header_element(*c, \"data\", \"length\") two statements before in validate_data_header rejects a header without `length`"),
   (("sbe_schema_validator.hpp", "validate_field_offset", "optderef", "*f.offset,"),
     .local_ "tested by if(x) on the same optional in this function"),
   (("sbe_schema_validator.hpp", "validate_field_offset", "optderef", "context.level_offset = *f.offset;"),
@@ -144,6 +146,10 @@ def guardTable : List (SiteKey × Guard) := [
     .local_ "validate_members rejected a missing field type just before"),
   (("sbe_schema_validator.hpp", "validate_constant_field", "assert", "assert(false);"),
     .order "get_actual_presence maps a set field to required: never constant"),
+  (("sbe_schema_validator.hpp", "validate_header_value", "get", "std::get<sbe::composite>(*get_encoding(get_header_type(level)));"),
+    .rule "validate" "validate_level_header ran for this header first (message header: validate_message_header before the message loop; group: validate_group_header right before validate_members(g)) and rejects a missing or non-composite encoding"),
+  (("sbe_schema_validator.hpp", "validate_header_value", "ptrderef", "std::get<sbe::composite>(*get_encoding(get_header_type(level)));"),
+    .rule "validate" "validate_level_header ran for this header first (message header: validate_message_header before the message loop; group: validate_group_header right before validate_members(g)) and rejects a missing or non-composite encoding"),
   (("sbe_schema_validator.hpp", "validate_block_length", "optderef", "*level.block_length,"),
     .local_ "tested by if(x) on the same optional in this function"),
   (("sbe_schema_validator.hpp", "validate_block_length", "optderef", "ctx_manager->get(level).actual_block_length = *level.block_length;"),
@@ -278,6 +284,8 @@ def guardTable : List (SiteKey × Guard) := [
     .rule "parse" "throw_if_nested_too_deep: schema_parser rejects composites and groups nested deeper than max_nesting_depth = 64, every pass recurses over that nesting only"),
   (("traits_generator.hpp", "get_num_in_group_underlying_type", "get", "const auto& r = std::get<sbe::ref>(*element);"),
     .rule "validate" "get_level_header_element: a level-header element is a type or a ref to a type"),
+  (("traits_generator.hpp", "get_num_in_group_underlying_type", "ptrderef", "const auto& r = std::get<sbe::ref>(*element);"),
+    .rule "validate" "get_level_header_element: a group header has a numInGroup element (required by validate_group_header)"),
   (("traits_generator.hpp", "get_group_payload_size", "frontback", "fmt::arg(\"num_in_group_param\", param_names.back()),"),
     .order "the caller pushes the numInGroup parameter name first"),
   (("traits_generator.hpp", "make_group_size_bytes_impl", "recursion", "calls make_group_size_bytes_impl"),
